@@ -209,6 +209,8 @@ struct Case {
     target: Target,
     retries: usize,
     unit: usize,
+    /// run against a server with nobody on it (the retry rules must not depend on what an earlier reply said)
+    empty_server: bool,
 }
 
 fn build(tier: Tier) -> Vec<Case> {
@@ -230,7 +232,17 @@ fn build(tier: Tier) -> Vec<Case> {
                     target: t.clone(),
                     retries,
                     unit,
+                    empty_server: false,
                 });
+                if matches!(t.family, Family::Unreal2 | Family::Valve(_)) && retries <= 2 {
+                    v.push(Case {
+                        label: format!("{} request unit {unit} retries={retries}, server with no players", t.name),
+                        target: t.clone(),
+                        retries,
+                        unit,
+                        empty_server: true,
+                    });
+                }
             }
         }
     }
@@ -268,7 +280,31 @@ impl Prop for C10 {
         let t = &case.target;
         let fam = if t.name.starts_with("jc2m") { Family::Jc2m } else { t.family };
         let ts = super::c01::timeouts(case.retries);
-        let base = run_query((t.server)(), Box::new(Faithful), Chooser::new(&[]), || (t.call)(ts));
+        let family = t.family;
+        let empty = case.empty_server;
+        let default_server = t.server.clone();
+        let mk_server = move || -> Box<dyn crate::vnet::Responder> {
+            if !empty {
+                return default_server();
+            }
+            match family {
+                Family::Unreal2 => {
+                    let mut s = u2_seed();
+                    s.players.clear();
+                    s.num_players = 0;
+                    Box::new(crate::rsm::unreal2::U2Server { state: s, rule_packets: 2, player_packets: 1 })
+                }
+                Family::Valve(e) => {
+                    let mut s = valve_seed(e);
+                    s.players.clear();
+                    s.info.players = 0;
+                    let tr = valve_seed_transport(e, &s);
+                    Box::new(crate::rsm::valve::ValveServer::new(s, tr))
+                }
+                _ => default_server(),
+            }
+        };
+        let base = run_query(mk_server(), Box::new(Faithful), Chooser::new(&[]), || (t.call)(ts));
         let Outcome::Ok(baseline) = base.outcome.clone() else {
             ctx.violation(
                 format!("fault-free-run-fails:{}", super::c09::family_tag(fam)),
@@ -295,7 +331,7 @@ impl Prop for C10 {
                     first_recv_only: fam == Family::Unreal2,
                     delivered: delivered.clone(),
                 };
-                let x = run_query((t.server)(), Box::new(policy), Chooser::new(prefix), || (t.call)(ts));
+                let x = run_query(mk_server(), Box::new(policy), Chooser::new(prefix), || (t.call)(ts));
                 let d = delivered.lock().unwrap().clone();
                 (x, d)
             },
